@@ -170,3 +170,155 @@ Definition infer (p : ec_params) : result (option bytes) :=
   let* r := infer_row p in Ok (option_map c_name r).
 Definition infer_gen (f5 f6 : bool) (p : ec_params) : result (option bytes) :=
   let* r := infer_row_gen f5 f6 table p in Ok (option_map c_name r).
+
+(* ---------- the same functions with the map lookup as a parameter ----------
+   [find z] stands for namedPrimeCurves[z.String()].  Instantiated with the list lookup by the decimal
+   string these are the functions above (Proofs/Curve.v: *_with_is_gen); instantiated with a lookup
+   by the numeric value of the keys ([find_z table_z], keys converted once) they are what the case
+   runner evaluates -- printing a 521-bit integer in decimal for every described object is the
+   dominating cost -- and Proofs/Curve.v proves the two instances equal for every input. *)
+Section WithFind.
+  Variable find : Z -> option curve_row.
+
+  Definition infer_row_with (f5 f6 : bool) (p : ec_params) : result (option curve_row) :=
+    if oid_eqb (p_field p) oid_prime_field then
+      match p_prime p with
+      | Some z =>
+          match find z with
+          | Some c =>
+              let* m := params_match_gen f5 f6 c p in
+              Ok (if m then Some c else None)
+          | None => Ok None
+          end
+      | None => Ok None
+      end
+    else Ok None.
+
+  Definition curve_name_with (f5 f6 : bool) (p : ec_params) : result bytes :=
+    let* r := infer_row_with f5 f6 p in
+    Ok (match r with Some c => c_display c | None => [] end).
+
+  Definition explicit_attrs_with (f5 f6 : bool) (p : ec_params) : result (list (bytes * bytes)) :=
+    let ft := [(bs "Field type", field_type_name (p_field p))] in
+    let ps := if oid_eqb (p_field p) oid_prime_field then
+                match p_prime p with
+                | Some z => [(bs "Prime size", dec_of_N (bitlen z) ++ bs " bits")]
+                | None => []
+                end
+              else [] in
+    let fs := if oid_eqb (p_field p) oid_char2_field then
+                match p_char2 p with
+                | Some m => [(bs "Field size", bs "2^" ++ dec_of_Z m)]
+                | None => []
+                end
+              else [] in
+    let* nm := curve_name_with f5 f6 p in
+    Ok (ft ++ ps ++ fs ++ match nm with [] => [] | _ => [(bs "Curve (inferred)", nm)] end).
+
+  Definition container_info_with (f5 f6 : bool) (kind : N) (pem : bool) (state : N)
+      (p : ec_params) : result info :=
+    if state =? 2 then
+      let* ea := explicit_attrs_with f5 f6 p in
+      if kind =? 0 then Ok (leaf (bs "PKIX public key") (algo_ecdsa :: ea))
+      else if kind =? 1 then Ok (leaf (bs "PKCS#8 private key") (algo_ecdsa :: ea))
+      else if kind =? 2 then Ok (leaf (bs "EC private key") (algo_ecdsa :: ea))
+      else if pem then Ok (leaf (bs "EC parameters") ea)
+      else Err "bare EC parameters have no DER route"
+    else if state =? 1 then
+      if kind =? 0 then Ok (leaf (bs "PKIX public key") [algo_ecdsa])
+      else if kind =? 1 then Ok (leaf (bs "PKCS#8 private key") [algo_ecdsa])
+      else if (kind =? 3) && pem then Ok (leaf (bs "unknown PEM data") [])
+      else Err "not described by the model"
+    else if pem then Ok (leaf (bs "unknown PEM data") [])
+    else Err "not described by the model".
+End WithFind.
+
+(* the value of a decimal string (an optional '-' first) *)
+Fixpoint dec_val_acc (acc : N) (l : bytes) : N :=
+  match l with
+  | [] => acc
+  | d :: r => dec_val_acc (acc * 10 + (d - 48)) r
+  end.
+Definition z_of_dec (l : bytes) : Z :=
+  match l with
+  | 45 :: r => (- Z.of_N (dec_val_acc 0 r))%Z
+  | _ => Z.of_N (dec_val_acc 0 l)
+  end.
+
+Definition key_value (c : curve_row) : Z := z_of_dec (c_key c).
+Definition with_key_values (t : list curve_row) : list (Z * curve_row) := map (fun c => (key_value c, c)) t.
+Fixpoint find_z (tz : list (Z * curve_row)) (z : Z) : option curve_row :=
+  match tz with
+  | [] => None
+  | (k, c) :: r => if (k =? z)%Z then Some c else find_z r z
+  end.
+Definition table_z : list (Z * curve_row) := with_key_values table.
+
+Definition params_curve_name_fast := curve_name_with (find_z table_z) has_f5 has_f6.
+Definition container_info_fast := container_info_with (find_z table_z) has_f5 has_f6.
+
+(* ---------- more than one object in a carrier ----------
+   PEMFile, internal/file/parsers.go:93-125: a loop over the PEM blocks of the file,
+   blockInfos = append(blockInfos, parsePEMBlock(b)); one block: its report is the file's; several:
+   "multiple PEM blocks" with one child per block, in order; none: an error.  parsePEMBlock
+   (pem.go:10-70) for the four block types that carry EC parameters is [container_info .. true ..];
+   for any other block type its answer is a parameter recorded by the harness ([BOther]).
+   [ci] is container_info (or its fast instance). *)
+Inductive pem_block : Type :=
+| BEC (kind state : N) (p : ec_params)     (* PUBLIC KEY / PRIVATE KEY / EC PRIVATE KEY / EC PARAMETERS *)
+| BOther (i : info).                       (* any other block: parsePEMBlock's answer for it *)
+
+(* what is inspected: one EC container file, any other object (its report recorded by the harness),
+   a PEM bundle, a keystore (JavaKeystore, parsers.go:56-66: one child per entry, in order; the
+   report of an entry is a parameter recorded from a keystore that holds this entry alone) *)
+Inductive carrier : Type :=
+| CSingle (kind : N) (pem : bool) (state : N) (p : ec_params)
+| COther (i : info)
+| CBundle (blocks : list pem_block)
+| CKeystore (top : info) (entries : list info).
+
+Section Carriers.
+  Variable ci : N -> bool -> N -> ec_params -> result info.
+
+  Definition describe_block_with (b : pem_block) : result info :=
+    match b with
+    | BEC kind state p => ci kind true state p
+    | BOther i => Ok i
+    end.
+
+  (* the loop, with the accumulator the code appends to *)
+  Fixpoint pem_loop_with (acc : list info) (blocks : list pem_block) : result (list info) :=
+    match blocks with
+    | [] => Ok acc
+    | b :: rest => let* i := describe_block_with b in pem_loop_with (acc ++ [i]) rest
+    end.
+
+  Definition describe_bundle_with (blocks : list pem_block) : result (list info) := pem_loop_with [] blocks.
+
+  Definition pem_file_with (blocks : list pem_block) : result info :=
+    let* infos := describe_bundle_with blocks in
+    match infos with
+    | [] => Err "no valid PEM blocks"
+    | [i] => Ok i
+    | _ => Ok (Info (bs "multiple PEM blocks") [] infos)
+    end.
+
+  Definition describe_with (c : carrier) : result info :=
+    match c with
+    | CSingle kind pem state p => ci kind pem state p
+    | COther i => Ok i
+    | CBundle blocks => pem_file_with blocks
+    | CKeystore top entries => Ok (Info (i_desc top) (i_attrs top) entries)
+    end.
+End Carriers.
+
+Definition describe_block := describe_block_with container_info.
+Definition pem_loop := pem_loop_with container_info.
+Definition describe_bundle := describe_bundle_with container_info.
+Definition pem_file := pem_file_with container_info.
+Definition describe := describe_with container_info.
+Definition describe_fast := describe_with container_info_fast.
+
+(* successive inspections in one process: nothing is carried from one to the next *)
+Definition describe_history (cs : list carrier) : list (result info) := map describe cs.
+Definition describe_history_fast (cs : list carrier) : list (result info) := map describe_fast cs.
